@@ -1,5 +1,6 @@
 """C01 — untrusted font data is rejected with an error, never a crash (clauses a, b, c, d, f)."""
 import arith
+import indexing
 import loops
 import panics
 import recursion
@@ -12,11 +13,14 @@ EXPLANATION = (
     "an argument relation) is locally discharged by a dominating check, or is an audited exception with a written reason in "
     "ledger/explicit_panic.jsonl, or a known finding — a new site or a site whose guard is removed is a violation; (C01-c) every "
     "allocation size originates from a constant, an in-memory length, a type-bounded value or an API argument; (C01-d) every "
-    "division by a non-constant is guarded against zero; (C01-f) every hand-written loop has a progress witness."
+    "division by a non-constant is guarded against zero; (C01-f) every hand-written loop has a progress witness; (C01-g) every element "
+    "indexing site x[i] is discharged by a constant/type-bounded index into a fixed-size array or a dominating i < x.len() on the same "
+    "receiver and value, or is an audited site with a written in-range argument (ledger/index.jsonl, 257 sites read by four independent "
+    "reviewers) — a new indexing site or a removed bound check is a violation."
 )
 NOT_DECIDED = (
-    "implicit panics from element indexing (about 380 sites) and integer add/mul/neg/shift overflow (about 530 overflow asserts): "
-    "proving them absent needs relational value-range reasoning across loops and calls; running time of terminating loops "
+    "integer add/mul/neg/shift/sub overflow (about 700 overflow asserts; wrap-around in release builds): proving them absent needs "
+    "relational value-range reasoning across loops and calls; running time of terminating loops "
     "(e.g. cmap format 12 group iteration); decompression output size in WOFF/WOFF2; unsigned subtraction overflow (clause e) is not claimed."
 )
 ASSUMPTIONS = ["std/core functions panic only as documented", "third-party crates (brotli, flate2, encoding_rs) do not panic on any input"]
@@ -28,6 +32,7 @@ def check(run, fx, tier, floors=True):
     arith.rule_alloc(run, fx, "C01-c", floors)
     arith.rule_div(run, fx, "C01-d", floors)
     loops.rule_loops(run, fx, "C01-f", floors)
+    indexing.rule_index(run, fx, "C01-g", floors)
 
 
 def rule_panics(run, fx, rule, select, floors, floor_n=200):
